@@ -117,6 +117,8 @@ func c17Trees() []*refTree {
 			"rpc": leaf("S1rpc", "a", "serverInfo"),
 			"a.b": leaf("S1unreachable", "c"),
 			"c.c": leaf("S1dotted", "a"),
+			"a-":  leaf("S1a-", "b", "a"), // a service name that has another one as prefix, continued by a byte below '.'
+			"a b": leaf("S1a b", "b"),
 			"é":   leaf("S1é", "é"),
 			"R":   {Name: "S1R", Services: map[string]*refTree{"p": leaf("S1Rp", "c", "c.c")}},
 		}},
@@ -124,6 +126,7 @@ func c17Trees() []*refTree {
 			"a": {Name: "S3a", Services: map[string]*refTree{
 				"b": {Name: "S3ab", Services: map[string]*refTree{"c": leaf("S3abc", "a", "", "r.p")}},
 				"":  leaf("S3a-empty", "b"),
+				"b+": leaf("S3ab+", "c"),
 			}},
 			"r": leaf("S3r", "p", "p.c"),
 		}},
